@@ -56,6 +56,51 @@ theorem no_trailing_magic_rejected (cols : List Col) (dc : Decomp) (F : Bytes)
   · have h' : F.drop (F.length - 4) ≠ [80, 65, 82, 49] := h
     rw [if_neg h8, if_pos h']; exact ⟨_, rfl⟩
 
+/-- a byte string that is itself a complete file as far as `NewParquetReader` can tell: it ends with a
+footer that the thrift decoder accepts as a `FileMetaData`, the footer's length, and the magic -/
+def HasTrailer (P : Bytes) : Prop :=
+  8 ≤ P.length ∧ P.drop (P.length - 4) = magic ∧
+  fromLE ((P.drop (P.length - 8)).take 4) + 8 ≤ P.length ∧
+  ∃ t s f, ({ data := P, pos := P.length - (fromLE ((P.drop (P.length - 8)).take 4) + 8) } : Src).readStruct = .ok (t, s) ∧
+    decFMD t = some f
+
+/-- **What is accepted at all.**  Whatever bytes the reader is given (a prefix of a file or anything else): if
+`NewParquetReader` succeeds, the bytes end with a complete trailer — magic, length, and a footer that decodes.
+So the only strict prefixes that can ever be accepted are those that are themselves well-formed up to their
+own footer (the known finding: a data value holding a complete trailer); every other truncation is refused
+when the file is opened, before any page is read. -/
+theorem accepted_has_trailer (cols : List Col) (dc : Decomp) (P : Bytes) (st : RState)
+    (h : openReader cols dc P = .ok st) : HasTrailer P := by
+  unfold openReader at h
+  by_cases h8 : P.length < 8
+  · rw [if_pos h8] at h; exact absurd h (by simp)
+  · rw [if_neg h8] at h
+    by_cases hm : P.drop (P.length - 4) ≠ [80, 65, 82, 49]
+    · rw [if_pos hm] at h; exact absurd h (by simp)
+    · rw [if_neg hm] at h
+      simp only at h
+      by_cases hs : fromLE ((P.drop (P.length - 8)).take 4) + 8 > P.length
+      · rw [if_pos hs] at h; exact absurd h (by simp)
+      · rw [if_neg hs] at h
+        cases hr : ({ data := P, pos := P.length - (fromLE ((P.drop (P.length - 8)).take 4) + 8) } : Src).readStruct with
+        | error e => rw [hr] at h; exact absurd h (by simp)
+        | ok r =>
+          obtain ⟨t, s⟩ := r
+          rw [hr] at h
+          simp only at h
+          cases hd : decFMD t with
+          | none => rw [hd] at h; exact absurd h (by simp)
+          | some f =>
+            refine ⟨by omega, ?_, by omega, t, s, f, hr, hd⟩
+            exact Classical.not_not.mp hm
+
+/-- contrapositive, for prefixes: a strict prefix without a complete trailer of its own is refused -/
+theorem truncated_rejected_unless_trailer (cols : List Col) (dc : Decomp) (F : Bytes) (n : Nat)
+    (h : ¬ HasTrailer (F.take n)) : ∃ e, openReader cols dc (F.take n) = .error e := by
+  cases ho : openReader cols dc (F.take n) with
+  | error e => exact ⟨e, rfl⟩
+  | ok st => exact absurd (accepted_has_trailer cols dc _ st ho) h
+
 example : NoInnerMagic (magic ++ [1, 2, 3, 4, 5, 6, 7, 8] ++ magic) := by
   intro o ho h
   simp [magic] at ho
